@@ -36,9 +36,10 @@ type (
 		Args []Expr
 	}
 	EQuant struct {
-		Forall bool
-		Vars   []Binder
-		Body   Expr
+		Forall   bool
+		Vars     []Binder
+		Body     Expr
+		Triggers []Expr // optional explicit trigger (one multi-pattern)
 	}
 	EOld struct{ X Expr }
 )
@@ -450,13 +451,24 @@ func (p *sparser) primary() Expr {
 				for _, nm := range names {
 					bs = append(bs, Binder{nm, ty})
 				}
-				if p.accept("::") {
+				if p.isOp("{") || p.accept("::") {
 					break
 				}
 				p.expect(",")
 			}
+			var trig []Expr
+			if p.accept("{") {
+				for {
+					trig = append(trig, p.expr())
+					if !p.accept(",") {
+						break
+					}
+				}
+				p.expect("}")
+				p.expect("::")
+			}
 			body := p.expr()
-			return &EQuant{Forall: t.v == "forall", Vars: bs, Body: body}
+			return &EQuant{Forall: t.v == "forall", Vars: bs, Body: body, Triggers: trig}
 		}
 		return &EIdent{t.v}
 	case "op":
